@@ -197,7 +197,7 @@ def d3(ctx, F, top):
 
 
 def d4(ctx, F):
-    hs = F.one_body(r"^selium_server::server::handle_stream::\{closure#0\}$")
+    hs = K.handle_stream_body(ctx, F)
     ctx.touch(hs)
     ivc = hs.calls_to(TN + "::is_valid")
     if not ctx.check(len(ivc) == 1, "C07.D4.server-validates", "handle_stream:no-is_valid", "handle_stream calls TopicName::is_valid once", hs.span):
@@ -225,7 +225,7 @@ def d4(ctx, F):
                  "std::collections::hash::map::HashMap::get_mut", "std::collections::hash::map::HashMap::get", "selium_server::topic::Sender::send", "tokio::task::spawn::spawn",
                  "selium_server::topic::pubsub::Topic::pair", "selium_server::topic::reqrep::Topic::pair"):
             guarded.append(c)
-    ctx.floor("C07.D4.server-validates.guarded-ops", len(guarded), 12)
+    ctx.floor("C07.D4.server-validates.guarded-ops", len(guarded), 6)
     bad_reach = hs.reachable(bad_edge)
     for c in guarded:
         ok = hs.dominates(sbb, c.bb) and c.bb not in flow.reach_avoiding(hs, [bad_edge], [sbb])
@@ -257,12 +257,12 @@ def d5(ctx, F):
             ctx.check(i["derived"], "C07.D5.derived-identity", "topicname-handwritten:%s" % t.rsplit("::", 1)[-1],
                       "TopicName's %s impl is the derived one (compares/hashes both namespace and topic)" % t, i["span"])
     ctx.floor("C07.D5.derived-identity.impls", sum(1 for v in need.values() if v), 3)
-    hs = F.one_body(r"^selium_server::server::handle_stream::\{closure#0\}$")
+    hs = K.handle_stream_body(ctx, F)
     gt = hs.calls_to("selium_protocol::frame::Frame::get_topic")
     tvals = flow.derived(hs, {gt[0].dest["l"]}, calls="adapters") if gt else set()
     ops = [c for c in hs.calls() if strip_generics(c.callee) in ("std::collections::hash::map::HashMap::contains_key", "std::collections::hash::map::HashMap::insert",
                                                                "std::collections::hash::map::HashMap::get_mut", "std::collections::hash::map::HashMap::get") and "TopicName" in c.full]
-    ctx.floor("C07.D5.map-key.ops", len(ops), 4)
+    ctx.floor("C07.D5.map-key.ops", len(ops), 2)
     for c in ops:
         ctx.check(op_local(c.args[1]) in tvals, "C07.D5.map-key", "handle_stream:map-key:%s" % c.name(),
                   "topic map %s is keyed by this stream's TopicName" % c.name(), c.span)
